@@ -22,6 +22,11 @@ def run(ctx):
     ctx.samples = tc.sample(progs, 2) + tc.sample(rnd, 1)
     ctx.distinct = tc.distinct(progs + rnd) | {p["kind"] + str(len(p["ops"])) for p in longs}
     tc.judge(ctx, programs, "c02")
+    # the user-defined generic table (Sdt): Length after every kind of append
+    from props import c13
+    res = vlib.model_check(ctx, "MC_Sdt_quick.cfg", "MC_Sdt.tla", workers=8)
+    sdt = res.replays + [c13.random_history(rng, 1500 if th else 400, 30) for _ in range(30 if th else 8)]
+    vlib.run_and_judge(ctx, sdt, "Trace_Sdt.cfg", "Trace_Sdt.tla", "c02sdt")
     return vlib.finish(ctx, rule="same history sources as C01 (all MC_Tables histories to the depth bound, long mixtures, random "
                        "programs); predicate: the little-endian Length field (offset 4; RSDP offset 20) equals the number of bytes "
                        "the sink received, judged by TLC after every observed operation; independent of the crate's len() helpers")
